@@ -314,12 +314,19 @@ pub fn gen_clean(rng: &mut Rng) -> CleanTrace {
             let mut ts: Vec<u64> = vec![];
             let first = if rng.chance(1, 2) { 0 } else { rng.below(3_000_000) / 100 * 100 };
             let mut cur = first;
+            // long boots (timestamps many seconds apart, so that the boot spans more than 60 s and gets confirmed while the
+            // trace is still running) in half of the cases
+            let long_boot = rng.chance(1, 2);
             for k in 0..nmsg {
                 if k > 0 {
-                    cur += match rng.below(5) {
-                        0 => 0,
-                        1 => rng.range(10_000_000, 40_000_000) / 100 * 100, // gap > 10 s
-                        _ => rng.below(2_000_000) / 100 * 100,
+                    cur += if long_boot {
+                        rng.range(5_000_000, 30_000_000) / 100 * 100
+                    } else {
+                        match rng.below(5) {
+                            0 => 0,
+                            1 => rng.range(10_000_000, 40_000_000) / 100 * 100, // gap > 10 s
+                            _ => rng.below(2_000_000) / 100 * 100,
+                        }
                     };
                 }
                 ts.push(cur);
@@ -352,12 +359,19 @@ pub fn gen_clean(rng: &mut Rng) -> CleanTrace {
     let mut cursors: Vec<(usize, usize)> = vec![(0, 0); necu];
     let mut msgs = vec![];
     let mut boot_of = vec![];
+    // bursty interleaving (an ECU logs a run of messages, then is silent while others log) in half of the traces
+    let bursty = rng.chance(1, 2);
+    let mut last_e: Option<usize> = None;
     loop {
         let avail: Vec<usize> = (0..necu).filter(|e| cursors[*e].0 < per_ecu[*e].len()).collect();
         if avail.is_empty() {
             break;
         }
-        let e = *rng.pick(&avail);
+        let e = match last_e {
+            Some(le) if bursty && avail.contains(&le) && rng.chance(3, 4) => le,
+            _ => *rng.pick(&avail),
+        };
+        last_e = Some(e);
         let (b, k) = cursors[e];
         let boot = &per_ecu[e][b];
         let ts = boot.ts[k];
@@ -683,6 +697,12 @@ pub fn lc_main(prop: &str) {
         } else if k % 7 == 3 {
             let msgs = gen_resume_chain(&mut rng);
             record(&mut sink, vec![], msgs, None);
+        } else if k % 7 == 5 {
+            let msgs = gen_scenario(&mut rng);
+            record(&mut sink, vec![], msgs, None);
+        } else if k % 7 == 1 {
+            let msgs = gen_merge_template(&mut rng);
+            record(&mut sink, vec![], msgs, None);
         } else {
             let pre = gen_pre(&mut rng);
             let max_len = match rng.below(10) { 0 => 80, 1..=3 => 40, _ => 14 };
@@ -824,4 +844,133 @@ pub fn record_table(sink: &mut Sink, rows: Vec<TRow>) {
     let id = sink.next_id();
     sink.push(Case { id, key: input_coq.clone(), input_coq, input_json: json!({"table": rows.iter().map(|x| x.json()).collect::<Vec<_>>()}),
         obs, verdict, classes: vec![], tags, nontrivial: rows.len() >= 3 && rows.iter().any(|x| x.resume.is_some()) });
+}
+
+
+// ------------------------------------------------------------------ intent-driven scenarios
+/// Streams composed from intents per ECU, so that the interesting detector paths are hit on purpose and in combination:
+/// a lifecycle confirmed by its timestamp span (> 60 s) while lifecycles of other ECUs are still buffered; a new
+/// lifecycle after the end of the previous one; a late message that pulls the start of the current lifecycle back by
+/// up to 60 s (merge into the predecessor, buffered or already published); pulls by more than 60 s (ignore rule);
+/// reception gaps > 10 s with continuing timestamps (resume); silent phases.  The reception clock advances by more than
+/// one second per message most of the time so that the once-per-second confirmation check runs.
+pub fn gen_scenario(rng: &mut Rng) -> Vec<MSpec> {
+    let necu = rng.range(2, 3) as usize;
+    // per ECU: estimated start of the current lifecycle, max timestamp so far (us), whether it has any lifecycle
+    let mut start: Vec<u64> = vec![0; necu];
+    let mut maxts: Vec<u64> = vec![0; necu];
+    let mut alive: Vec<bool> = vec![false; necu];
+    let mut now = RHO + 500_000_000;
+    let n = rng.range(5, 16);
+    let mut out = vec![];
+    for _ in 0..n {
+        now += match rng.below(10) {
+            0 => rng.range(0, 900_000),
+            1 => rng.range(11_000_000, 40_000_000),
+            _ => rng.range(1_100_000, 3_500_000),
+        };
+        let e = rng.below(necu as u64) as usize;
+        let ts_us: u64;
+        if !alive[e] || rng.chance(1, 5) {
+            // new lifecycle: boot shortly before now
+            let ts = rng.range(1, 6) * 1_000_000;
+            start[e] = now - ts;
+            maxts[e] = ts;
+            alive[e] = true;
+            ts_us = ts;
+        } else {
+            match rng.below(8) {
+                0 | 1 => {
+                    // span: a timestamp more than 60 s beyond the smallest so far (confirms by span), consistent or not with the clock
+                    let ts = maxts[e] + rng.range(61_000_000, 70_000_000);
+                    if rng.chance(1, 2) {
+                        now = now.max(start[e] + ts);
+                    }
+                    maxts[e] = ts;
+                    ts_us = ts;
+                }
+                2 | 3 => {
+                    // pull: the message testifies to a start up to 60 s earlier than the current estimate
+                    let d = rng.range(1_000_000, 59_000_000);
+                    let new_start = start[e].saturating_sub(d);
+                    ts_us = now.saturating_sub(new_start);
+                    start[e] = new_start;
+                    maxts[e] = maxts[e].max(ts_us);
+                }
+                4 => {
+                    // far pull (> 60 s): ignore rule when the lifecycle already has a non-zero max timestamp
+                    let d = rng.range(61_000_000, 200_000_000);
+                    ts_us = now.saturating_sub(start[e].saturating_sub(d));
+                }
+                _ => {
+                    // regular message of the current lifecycle, small delay
+                    let delay = rng.below(300_000);
+                    ts_us = now.saturating_sub(start[e]).saturating_sub(delay);
+                    maxts[e] = maxts[e].max(ts_us);
+                }
+            }
+        }
+        let ts_dms = (ts_us / 100).min(u32::MAX as u64) as u32;
+        out.push(MSpec { ecu: e as u8 + 1, rt: now, ts_dms, has_ts: true, kind: if rng.chance(1, 20) { 1 } else { 0 } });
+    }
+    out
+}
+
+
+// ------------------------------------------------------------------ merge templates
+/// Randomised instances of the multi-step merge situations (two or three ECUs):
+///  v0: A1 confirmed+published by its span; A2 (new lifecycle of A) buffered at the queue front; B1 (other ECU) queued behind it
+///      and confirmed by its span; a late A message pulls A2's start into A1 -> merge into the PUBLISHED predecessor, buffered_lcs
+///      empties, the whole queue is flushed.
+///  v1: the same with A1 still buffered (merge into the BUFFERED predecessor; nothing is flushed).
+///  v2: A2 itself is confirmed by its span while its messages are queued behind B1 (still buffered), then merged into A1.
+pub fn gen_merge_template(rng: &mut Rng) -> Vec<MSpec> {
+    let s = 1_000_000u64;
+    let v = rng.below(3);
+    let (a, b) = if rng.chance(1, 2) { (1u8, 2u8) } else { (2u8, 1u8) };
+    let t0 = RHO + rng.below(1000) * s;
+    let mut out: Vec<MSpec> = vec![];
+    let mut push = |ecu: u8, rt: u64, ts_us: u64| out.push(MSpec { ecu, rt, ts_dms: (ts_us / 100) as u32, has_ts: true, kind: 0 });
+    let ts1 = rng.range(1, 3) * s;
+    let g1 = if v == 1 { rng.range(5, 30) * s } else { rng.range(61, 70) * s };
+    // A1: two messages; with g1 > 60 s it is confirmed by its span at the second one
+    push(a, t0, ts1);
+    push(a, t0 + g1, ts1 + g1);
+    let a1_end = t0 + g1; // start = t0 - ts1, max ts = ts1 + g1
+    // A2: new lifecycle after the end of A1
+    let gap_a = rng.range(15, 40) * s;
+    let ts_a2 = rng.range(1, 8) * s;
+    let mut now = t0 + g1 + gap_a;
+    push(a, now, ts_a2);
+    // B1 behind it
+    now += rng.range(1_200_000, 2_500_000);
+    let ts_b = rng.range(1, 3) * s;
+    push(b, now, ts_b);
+    if v == 2 {
+        // A2 gets a span > 60 s while B1 (span small) keeps the queue blocked
+        now += rng.range(1_200_000, 2_500_000);
+        push(a, now, ts_a2 + rng.range(61, 66) * s);
+        now += rng.range(1_200_000, 2_500_000);
+        push(b, now, ts_b + rng.range(1, 20) * s);
+    } else {
+        // B1 confirmed by its span
+        now += rng.range(1_200_000, 2_500_000);
+        push(b, now, ts_b + rng.range(61, 66) * s);
+        if rng.chance(1, 2) {
+            now += rng.range(1_200_000, 2_500_000);
+            push(b, now, ts_b + rng.range(61, 66) * s + s);
+        }
+    }
+    // the late message of A: its calculated start lies d seconds before the end of A1 (d >= 2.5 s: not "slightly overlapping")
+    now += rng.range(1_200_000, 2_500_000);
+    let d = rng.range(2_500_000, 9_000_000);
+    let target_start = a1_end - d;
+    push(a, now, now - target_start);
+    // a few trailing messages
+    for _ in 0..rng.below(3) {
+        now += rng.range(1_200_000, 2_500_000);
+        let e = if rng.chance(1, 2) { a } else { b };
+        push(e, now, now - (t0 - ts1).min(now - s));
+    }
+    out
 }
